@@ -151,6 +151,7 @@ private:
 		t->run();
 		ASL_VERIF_POINT(ASL_VP_THREAD_EXIT, t);
 		t->_threadFinished = true;
+		t->finish();
 		return 0;
 	}
 #ifdef ASL_EXP_THREADING
@@ -217,6 +218,12 @@ public:
 	/** The thread procedure. Reimplement this function to create new threads */
 	virtual void run()
 	{}
+protected:
+	/** Called in the thread after run() returned and the thread was marked finished; the object is not used after this, so
+	a self-owned thread can delete itself here */
+	virtual void finish()
+	{}
+public:
 	/** Starts a new thread by calling run() in parallel */
 	void start()
 	{
